@@ -21,6 +21,7 @@ class Cfg:
         self.max_width = 3
         self.alphabet = SIMPLE
         self.bundle_alphabet = None  # names of ports/cables (default: alphabet)
+        self.scale = True          # now and then sizes past 9: two-digit indices, >=10 siblings
         self.unnamed = False       # allow elements without name
         self.lower_index = True    # allow non-zero lower_index on multi-bit bundles
         self.scalar_lower_index = False  # allow non-zero lower index on scalars
@@ -106,10 +107,14 @@ def _bundle(draw, cfg, used, tag):
     name = _unique(draw, used, cfg.bundle_alphabet or cfg.alphabet, cfg.unnamed, tag)
     lo_w = 0 if cfg.empty_bundles and draw(st.integers(0, 9)) == 0 else 1
     w = draw(st.integers(lo_w, cfg.max_width))
+    big = cfg.scale and cfg.max_width > 1 and draw(st.integers(0, 15)) == 0
+    if big:
+        w = draw(st.integers(10, 17))
     arr = w > 1 or (cfg.one_wide_arrays and w == 1 and draw(st.integers(0, 4)) == 0)
     lo = 0
     if cfg.lower_index and (arr or cfg.scalar_lower_index) and draw(st.booleans()):
-        lo = draw(st.integers(0, 5))
+        lo = draw(st.integers(0, 5)) if not (cfg.scale and draw(st.integers(0, 7)) == 0) \
+            else draw(st.integers(8, 12))
     downto = True if not cfg.downto else draw(st.integers(0, 4)) != 0
     out = {"name": name, "w": w, "lo": lo, "arr": bool(arr), "downto": downto}
     if cfg.data_all:
@@ -173,6 +178,8 @@ def recipes(draw, cfg=None):
                 d["cables"].append(draw(_bundle(cfg, used_c, "_c")))
             nch = draw(st.integers(0 if draw(st.integers(0, 5)) == 0 else 1,
                                    cfg.max_children)) if flat else 0
+            if flat and cfg.scale and cfg.max_children >= 3 and draw(st.integers(0, 19)) == 0:
+                nch = draw(st.integers(10, 12))   # ten or more siblings
             for _ in range(nch):
                 if cfg.noref_children and draw(st.integers(0, 9)) == 0:
                     ref = None
